@@ -432,7 +432,9 @@ uint32_t IPv6::calculate_headers_size() const {
 }
 
 void IPv6::write_header(const ext_header& header, OutputMemoryStream& stream) {
-    const uint8_t length = header.length_field() / 8;
+    // Header extension length: 8-octet units, not counting the first 8 octets.
+    // Round up so that the padding added below is covered as well
+    const uint8_t length = (header.length_field() + sizeof(uint8_t) * 2 + 7) / 8 - 1;
     stream.write(header.option());
     stream.write(length);
     stream.write(header.data_ptr(), header.data_size());
